@@ -181,6 +181,9 @@ struct Rp {
     i: u32,
     #[serde(skip_serializing_if = "Option::is_none")]
     item: Option<u32>,
+    /// the call's pad comes back, so that replies have every size relative to the write buffer, too
+    #[serde(skip_serializing_if = "String::is_empty")]
+    pad: String,
 }
 #[derive(Debug, Serialize)]
 #[serde(tag = "error", content = "parameters")]
@@ -218,7 +221,7 @@ impl Stream for St {
                 self.k += 1;
                 let cont = !(fin && self.k == n);
                 ev(json!({"ev":"stream_item","c":c,"i":i,"j":self.k}));
-                Poll::Ready(Some(Reply::new(Some(Rp { c, i, item: Some(self.k) })).set_continues(Some(cont))))
+                Poll::Ready(Some(Reply::new(Some(Rp { c, i, item: Some(self.k), pad: "s".repeat((i as usize * 37 + self.k as usize * 53) % 320) })).set_continues(Some(cont))))
             } else {
                 Poll::Pending
             }
@@ -263,7 +266,7 @@ impl Service for Svc {
             .await;
         }
         match call.method() {
-            M::Echo { c, i, .. } => MethodReply::Single(Some(Rp { c: *c, i: *i, item: None })),
+            M::Echo { c, i, pad } => MethodReply::Single(Some(Rp { c: *c, i: *i, item: None, pad: pad.clone() })),
             M::Fail { c, i } => MethodReply::Error(E::Failed { c: *c, i: *i }),
             M::Sub { c, i, n, fin } => {
                 let ctl: Ctl = Rc::new(RefCell::new(StreamCtl { c: *c, i: *i, n: *n, fin: *fin, released: 0, finished: false }));
@@ -283,7 +286,15 @@ fn call_frame(c: usize, i: usize, k: &Kind) -> Vec<u8> {
         Kind::Stream(n, f) => format!("{{\"method\":\"t.Sub\",\"parameters\":{{\"c\":{c},\"i\":{i},\"n\":{n},\"fin\":{f}}},\"more\":true}}"),
         Kind::Bad(0) => format!("{{\"method\":\"t.Nope\",\"parameters\":{{\"c\":{c},\"i\":{i}}}}}"),
         Kind::Bad(1) => format!("{{\"method\":\"t.Echo\",\"parameters\":{{\"c\":\"x\",\"i\":{i},\"pad\":7}}}}"),
-        Kind::Bad(_) => "{\"parameters\":{}}".to_string(),
+        Kind::Bad(2) => "{\"parameters\":{}}".to_string(),
+        // longer calls the service cannot decode, full of characters of two, three and four bytes at every
+        // alignment (whatever the server does with such a frame - log it, quote it - concerns this connection only)
+        Kind::Bad(b) => format!(
+            "{{\"method\":\"t.N{}pe\",\"parameters\":{{\"c\":{c},\"i\":{i},\"text\":\"{}{}\"}}}}",
+            "o".repeat(*b as usize % 5),
+            "x".repeat((*b as usize * 7 + c + i) % 9),
+            "é€😀".repeat(8 + (*b as usize % 4) * 9)
+        ),
         Kind::Garbage => format!("\u{1}garbage {c} {i} }}{{"),
     };
     let mut v = s.into_bytes();
@@ -519,7 +530,11 @@ fn rand_kind(r: &mut Rng, allow_stream: bool) -> Kind {
         0..=4 => Kind::Plain(match r.below(5) {
             0 => 0,
             1 => r.range(0, 30),
-            2 => (step + r.range(0, 8)).saturating_sub(60),
+            2 => match r.below(3) {
+                0 => (step + r.range(0, 8)).saturating_sub(60),
+                // ... and replies (which carry the pad back) that end around a growth step of the write buffer
+                _ => (step * r.range(1, 3) + r.range(0, 40)).saturating_sub(80).min(crate::buffer_max() / 4),
+            },
             // a call that needs many growth steps (and stays far below the limit)
             // (production constants only: with a lowered limit a burst of such calls would legitimately overflow)
             3 if crate::buffer_max() >= 1 << 20 => r.range(17 * step, 40 * step),
@@ -703,7 +718,7 @@ pub fn gen_faulty(r: &mut Rng, sid: String) -> Scenario {
             }
             3 => {
                 let at = r.range(0, conns[c].calls.len());
-                conns[c].calls.insert(at, Kind::Bad(r.below(3) as u8)); // a call the service cannot decode
+                conns[c].calls.insert(at, Kind::Bad(r.below(9) as u8)); // a call the service cannot decode
             }
             4 => {
                 let at = r.range(0, conns[c].calls.len());
